@@ -425,7 +425,16 @@ static int on_node(struct aws_xml_node *node, void *ud) {
     }
 }
 
+// A parse that does not return is a violation too (no element is reported, no error is returned).  A case takes
+// well under a millisecond; after 10 s SIGALRM ends the process, which the driver treats like a crash inside the
+// case (it re-runs the seed with one forked child per case, where the same alarm ends only the child).
+struct HangGuard {
+    HangGuard() { alarm(10); }
+    ~HangGuard() { alarm(0); }
+};
+
 static void run(const Case &c, Ctx &ctx) {
+    HangGuard hang_guard;
     galloc::reset();
     std::vector<Node> nodes = build_tree(c.ops);
     size_t opt_depth = (size_t)(c.c(0) % 25);
